@@ -444,3 +444,17 @@ func vSameMultiset(got, want []interface{}) bool {
 	}
 	return true
 }
+
+// vLowerByte / vUpperByte: ASCII case mapping without a branch (an if-then-else term under the engine).
+func vLowerByte(c byte) byte {
+	if 'A' <= c && c <= 'Z' {
+		return c + ('a' - 'A')
+	}
+	return c
+}
+func vUpperByte(c byte) byte {
+	if 'a' <= c && c <= 'z' {
+		return c - ('a' - 'A')
+	}
+	return c
+}
